@@ -151,23 +151,22 @@ pub fn run_parse(sim: &Sim, idx: u64) {
 
 const G: Duration = Duration::from_millis(2);
 
-pub fn run_deadline(sim: &Sim, _idx: u64) {
-    // configured deadlines
-    let base_ms = sim.pick(&[5u64, 20, 100, 1000, 10_000]);
-    let mk = |sim: &Sim| -> Option<Duration> {
-        match sim.weighted(&[3, 2, 2, 1]) {
-            0 => None,
-            1 => Some(Duration::from_millis(base_ms)),
-            2 => Some(Duration::from_millis(base_ms) + Duration::from_micros(sim.pick(&[0u64, 1, 999, 1000, 2500, 50_000]))),
-            _ => Some(Duration::from_millis(base_ms * sim.pick(&[2u64, 10]))),
-        }
-    };
+/// Per-call parameters of `N-deadline`: the caller's timeout (or a malformed header), what it
+/// denotes on the wire, the effective deadline D and a handler latency around it.
+#[derive(Clone, Debug)]
+struct DeadlineCall {
+    caller: Option<Duration>,
+    malformed: Option<&'static str>,
+    d: Option<Duration>,
+    latency: Option<Duration>,
+}
+
+fn draw_deadline_call(sim: &Sim, base_ms: u64, server: Option<Duration>, endpoint: Option<Duration>) -> DeadlineCall {
+    let mk = |sim: &Sim| -> Option<Duration> { mk_timeout(sim, base_ms) };
     // the caller's header: absent, a proper timeout, or a malformed value (which must be ignored:
     // the call then behaves exactly as if no header had been sent)
-    let malformed: Option<&str> = if sim.chance(1, 5) { Some(sim.pick(&["10x", "123456789S", "+5S", "S", "5", "1.5S", "5 S", "-1m", "u5"])) } else { None };
+    let malformed: Option<&'static str> = if sim.chance(1, 5) { Some(sim.pick(&["10x", "123456789S", "+5S", "S", "5", "1.5S", "5 S", "-1m", "u5"])) } else { None };
     let caller = if malformed.is_some() { None } else { mk(sim) };
-    let server = mk(sim);
-    let endpoint = mk(sim);
     // what the caller's timeout denotes on the wire (finest unit that fits 8 digits, rounded down)
     let caller_wire: Option<Duration> = caller.map(|c| {
         let ns = c.as_nanos();
@@ -187,75 +186,126 @@ pub fn run_deadline(sim: &Sim, _idx: u64) {
             _ => None, // never answers
         },
     };
+    DeadlineCall { caller, malformed, d, latency }
+}
+
+fn mk_timeout(sim: &Sim, base_ms: u64) -> Option<Duration> {
+    match sim.weighted(&[3, 2, 2, 1]) {
+        0 => None,
+        1 => Some(Duration::from_millis(base_ms)),
+        2 => Some(Duration::from_millis(base_ms) + Duration::from_micros(sim.pick(&[0u64, 1, 999, 1000, 2500, 50_000]))),
+        _ => Some(Duration::from_millis(base_ms * sim.pick(&[2u64, 10]))),
+    }
+}
+
+pub fn run_deadline(sim: &Sim, _idx: u64) {
+    // configured deadlines
+    let base_ms = sim.pick(&[5u64, 20, 100, 1000, 10_000]);
+    let server = mk_timeout(sim, base_ms);
+    let endpoint = mk_timeout(sim, base_ms);
+    let first = draw_deadline_call(sim, base_ms, server, endpoint);
+    // a second call on the same channel (and connection) with its own, independent deadline: the
+    // deadline belongs to the call, nothing of it may be carried over
+    let second: Option<DeadlineCall> = if sim.chance(1, 2) { Some(draw_deadline_call(sim, base_ms, server, endpoint)) } else { None };
     sim.nontrivial();
-    sim.sample(|| format!("caller={caller:?} malformed_header={malformed:?} server={server:?} endpoint={endpoint:?} -> D={d:?}; handler latency={latency:?}"));
-    sim.ev(|| format!("config: caller={caller:?} malformed_header={malformed:?} server={server:?} endpoint={endpoint:?} -> D={d:?}; handler latency={latency:?}"));
-    if malformed.is_some() && d.is_some() {
+    sim.sample(|| format!("server={server:?} endpoint={endpoint:?}; call 1 {first:?}; call 2 {second:?}"));
+    sim.ev(|| format!("config: server={server:?} endpoint={endpoint:?}; call 1 {first:?}; call 2 {second:?}"));
+    if first.malformed.is_some() && first.d.is_some() {
         sim.probe("malformed-header-with-configured-timeout");
     }
     let netcfg = NetCfg { frag: sim.chance(1, 2), ..NetCfg::ideal() };
-    let horizon = Duration::from_secs(3600);
-    let res = run_sim(sim, horizon, || async {
+    let horizon = Duration::from_secs(7200);
+    let calls: Vec<DeadlineCall> = std::iter::once(first.clone()).chain(second.clone()).collect();
+    let calls2 = calls.clone();
+    let res = run_sim(sim, horizon, || async move {
+        let calls = calls2;
         let (_net, connector, rx) = net_and_connector(sim, netcfg, vec![]);
         let handler = Handler::new(sim);
-        handler.add_script(1, Script { msgs: vec![b"pong".to_vec()], latency_us: latency.map(|l| l.as_micros() as u64).unwrap_or(u64::MAX), ..Default::default() });
+        for (i, c) in calls.iter().enumerate() {
+            handler.add_script(i as u64 + 1, Script { msgs: vec![b"pong".to_vec()], latency_us: c.latency.map(|l| l.as_micros() as u64).unwrap_or(u64::MAX), ..Default::default() });
+        }
         let _srv = spawn_server::<std::future::Pending<()>>(&handler, &CompCfg { server_accept: vec![], server_send: vec![], client_send: None, client_accept: vec![] }, &ServerOpts { timeout: server, ..Default::default() }, rx, None);
         let ch = match connect(&ClientOpts { timeout: endpoint, lazy: sim.chance(1, 2), ..Default::default() }, connector).await {
             Ok(c) => c,
             Err(e) => return Err(format!("connect failed: {e}")),
         };
-        let mut client = crate::rawsvc::raw_client::RawClient::new(ch);
-        let mut req = tonic::Request::new(RawMsg(Bytes::from_static(b"ping")));
-        req.metadata_mut().insert("sim-call", "1".parse().unwrap());
-        if let Some(c) = caller {
-            req.set_timeout(c);
+        let mut out = vec![];
+        for (i, c) in calls.iter().enumerate() {
+            let mut client = crate::rawsvc::raw_client::RawClient::new(ch.clone());
+            let mut req = tonic::Request::new(RawMsg(Bytes::from_static(b"ping")));
+            req.metadata_mut().insert("sim-call", (i + 1).to_string().parse().unwrap());
+            if let Some(t) = c.caller {
+                req.set_timeout(t);
+            }
+            if let Some(m) = c.malformed {
+                req.metadata_mut().insert("grpc-timeout", m.parse().unwrap());
+            }
+            let t0 = tokio::time::Instant::now();
+            // a call that nothing cuts off and whose handler never answers is given up by the harness
+            let r = tokio::time::timeout(Duration::from_secs(3000), client.unary(req)).await;
+            let el = t0.elapsed();
+            match r {
+                Err(_) => {
+                    out.push(None);
+                    break;
+                }
+                Ok(r) => out.push(Some((r.map(|x| x.into_inner().0.to_vec()).map_err(|e| (e.code(), e.message().to_string())), el))),
+            }
         }
-        if let Some(m) = malformed {
-            req.metadata_mut().insert("grpc-timeout", m.parse().unwrap());
-        }
-        let t0 = tokio::time::Instant::now();
-        let r = client.unary(req).await;
-        let el = t0.elapsed();
-        Ok((r.map(|x| x.into_inner().0.to_vec()).map_err(|e| (e.code(), e.message().to_string())), el))
+        Ok(out)
     });
-    let (outcome, elapsed) = match res {
-        None => return v9(sim, "call-hangs", format!("the call did not complete within {horizon:?} of virtual time (D={d:?}, latency={latency:?})")),
+    let outs = match res {
+        None => return v9(sim, "call-hangs", format!("the scenario did not complete within {horizon:?} of virtual time (call 1 {first:?}, call 2 {second:?})")),
         Some(Err(e)) => return v9(sim, "setup-failed", e),
         Some(Ok(x)) => x,
     };
-    sim.ev(|| format!("outcome {outcome:?} after {elapsed:?}"));
-    let cut = |o: &Result<Vec<u8>, (Code, String)>| matches!(o, Err((Code::Cancelled, m)) if m == "Timeout expired");
-    match (d, latency) {
-        (None, Some(l)) => {
-            if outcome.as_deref() != Ok(&b"pong"[..]) {
-                v9(sim, "call-without-deadline-affected", format!("no timeout configured, latency {l:?}: outcome {outcome:?}"));
+    for (i, (c, o)) in calls.iter().zip(outs.iter()).enumerate() {
+        let which = i + 1;
+        let (d, latency) = (c.d, c.latency);
+        let Some((outcome, elapsed)) = o.clone() else {
+            // no outcome within 3000 virtual seconds: fine only if nothing bounds the call and the handler never answers
+            if !(d.is_none() && latency.is_none()) {
+                v9(sim, "call-hangs", format!("call {which}: no outcome within 3000 virtual seconds (D={d:?}, latency={latency:?})"));
             }
+            continue;
+        };
+        if which == 2 {
+            sim.probe("second-call-on-the-same-channel-judged");
         }
-        (None, None) => {}
-        (Some(d), lat) => {
-            let finishes_before = matches!(lat, Some(l) if l + G < d);
-            let finishes_after = match lat {
-                None => true,
-                Some(l) => l > d + G,
-            };
-            if finishes_before {
-                sim.probe("finishes-before-deadline");
+        sim.ev(|| format!("call {which}: outcome {outcome:?} after {elapsed:?}"));
+        let cut = |o: &Result<Vec<u8>, (Code, String)>| matches!(o, Err((Code::Cancelled, m)) if m == "Timeout expired");
+        match (d, latency) {
+            (None, Some(l)) => {
                 if outcome.as_deref() != Ok(&b"pong"[..]) {
-                    v9(sim, "call-finishing-before-deadline-affected", format!("D={d:?}, latency {lat:?}: outcome {outcome:?} after {elapsed:?}"));
+                    v9(sim, "call-without-deadline-affected", format!("call {which}: no timeout configured, latency {l:?}: outcome {outcome:?}"));
                 }
-            } else if finishes_after {
-                sim.probe("cut-off-at-deadline");
-                if !cut(&outcome) {
-                    v9(sim, "deadline-not-enforced", format!("D={d:?} (caller {caller:?}, malformed header {malformed:?}, server {server:?}, endpoint {endpoint:?}), latency {lat:?}: outcome {outcome:?} after {elapsed:?}"));
-                } else if elapsed + Duration::from_micros(1) < d.saturating_sub(Duration::from_micros(1)) {
-                    v9(sim, "cut-off-before-deadline", format!("D={d:?}: cut off after only {elapsed:?}"));
-                } else if elapsed > d + G {
-                    v9(sim, "cut-off-late", format!("D={d:?}: cut off after {elapsed:?} (caller {caller:?}, server {server:?}, endpoint {endpoint:?})"));
-                }
-            } else {
-                sim.probe("inside-guard-band");
-                if !(cut(&outcome) || outcome.as_deref() == Ok(&b"pong"[..])) {
-                    v9(sim, "unexpected-outcome-at-boundary", format!("D={d:?}, latency {lat:?}: outcome {outcome:?}"));
+            }
+            (None, None) => {}
+            (Some(d), lat) => {
+                let finishes_before = matches!(lat, Some(l) if l + G < d);
+                let finishes_after = match lat {
+                    None => true,
+                    Some(l) => l > d + G,
+                };
+                if finishes_before {
+                    sim.probe("finishes-before-deadline");
+                    if outcome.as_deref() != Ok(&b"pong"[..]) {
+                        v9(sim, "call-finishing-before-deadline-affected", format!("call {which}: D={d:?}, latency {lat:?}: outcome {outcome:?} after {elapsed:?}"));
+                    }
+                } else if finishes_after {
+                    sim.probe("cut-off-at-deadline");
+                    if !cut(&outcome) {
+                        v9(sim, "deadline-not-enforced", format!("call {which}: D={d:?} (caller {:?}, malformed header {:?}, server {server:?}, endpoint {endpoint:?}), latency {lat:?}: outcome {outcome:?} after {elapsed:?}", c.caller, c.malformed));
+                    } else if elapsed + Duration::from_micros(1) < d.saturating_sub(Duration::from_micros(1)) {
+                        v9(sim, "cut-off-before-deadline", format!("call {which}: D={d:?}: cut off after only {elapsed:?}"));
+                    } else if elapsed > d + G {
+                        v9(sim, "cut-off-late", format!("call {which}: D={d:?}: cut off after {elapsed:?} (caller {:?}, server {server:?}, endpoint {endpoint:?})", c.caller));
+                    }
+                } else {
+                    sim.probe("inside-guard-band");
+                    if !(cut(&outcome) || outcome.as_deref() == Ok(&b"pong"[..])) {
+                        v9(sim, "unexpected-outcome-at-boundary", format!("call {which}: D={d:?}, latency {lat:?}: outcome {outcome:?}"));
+                    }
                 }
             }
         }
